@@ -63,7 +63,8 @@ TraceInit == Init /\ l = 1 /\ TLCSet(7, 0) /\ TLCSet(8, 1)
 Legal(s, c) ==
   /\ s \in Sessions
   /\ idle[s] <=> c.k = "DONE"
-  /\ c.k \in {"CLOSE", "UNSELECT", "FETCH", "STORE", "SEARCH", "EXPUNGE", "UIDEXPUNGE", "COPY", "MOVE", "IDLE"}
+  /\ held[s].on <=> c.k = "RESUME"
+  /\ c.k \in {"CLOSE", "UNSELECT", "FETCH", "STORE", "SEARCH", "EXPUNGE", "UIDEXPUNGE", "COPY", "MOVE", "IDLE", "STALL"}
        => sel[s] # None
   /\ c.k \in {"APPEND", "SELECT", "COPY", "MOVE"} => c.mbox \in Mailboxes
 
@@ -122,6 +123,7 @@ Reset ==
   /\ view' = [s \in Sessions |-> <<>>]
   /\ queue' = [s \in Sessions |-> <<>>]
   /\ idle' = [s \in Sessions |-> FALSE]
+  /\ held' = [s \in Sessions |-> NotHeld]
   /\ out' = [s \in Sessions |-> <<>>]
   /\ pre' = [s \in Sessions |-> <<>>]
   /\ last' = [s |-> None, k |-> "init", uid |-> FALSE]
